@@ -33,7 +33,8 @@
    * pause_writing / resume_writing of the client transport (CPause / CResume) as far as they change WHAT
      is done: `reset_nowait` at context exit calls h2 reset_stream but does not write while paused, the
      frame waits in h2's buffer (k_held) for the next write of any kind (CFlush: data_received's flush,
-     another call's write, an ack ...; when that happens is left to the history).  That every other
+     another call's write, an ack ...; when that happens is left to the history) and at the latest for
+     `resume_writing`, which flushes (CResume).  That every other
      client op first awaits write_ready only delays those ops; the model allows them at any time, which
      adds histories.  The server's transport likewise (its reset_nowait always follows a completed
      `await write_ready.wait()` without suspension in between);
@@ -342,8 +343,10 @@ Definition step (s : state) (o : op) : state * out :=
     end
   | SSettings n => (Build_state (calls s) (creg s) (sreg s) (maxc s) (flag s) (sq s ++ [n]) (cpaused s), ONone)
   | CPause => (Build_state (calls s) (creg s) (sreg s) (maxc s) (flag s) (sq s) true, ONone)
-  | CResume => (Build_state (calls s) (creg s) (sreg s) (maxc s) (flag s) (sq s) false, ONone)
-    (* resume_writing only sets write_ready: it writes nothing *)
+  | CResume =>
+    (* Connection.resume_writing: write_ready.set(); flush() -- what reset_nowait left in h2's buffer
+       while writing was paused is written now (repaired D45) *)
+    (Build_state (map flush1 (calls s)) (creg s) (sreg s) (maxc s) (flag s) (sq s) false, ONone)
   | CFlush => (with_calls s (map flush1 (calls s)), ONone)
   end.
 
